@@ -37,8 +37,11 @@ const KnownPendingKey = "call-completed-while-exception-pending"
 const KnownCatchFinKey = "callee-failure-under-catch-with-finally"
 
 // known reports whether a finding is listed in known_findings.json (then its exact shape is excluded). The environment
-// variable C04_ASSUME_KNOWN (development / sensitivity runs only) treats both shapes as listed.
-func known(key string) bool { return vt.Known(key) || os.Getenv("C04_ASSUME_KNOWN") != "" }
+// variable C04_ASSUME_KNOWN (development / sensitivity runs only; "all" or a list of keys) treats shapes as listed.
+func known(key string) bool {
+	e := os.Getenv("C04_ASSUME_KNOWN")
+	return vt.Known(key) || e == "all" || strings.Contains(e, key)
+}
 
 // Case is one generated situation: a call-tree program, who runs it, and the block it runs in.
 type Case struct {
@@ -360,11 +363,12 @@ var errSetup = errors.New("setup")
 func setupErr(f string, a ...any) error { return fmt.Errorf("%w: %s", errSetup, fmt.Sprintf(f, a...)) }
 
 func checkCase(c Case, o *vt.Obs) error {
-	_, err := runCase(c, o)
+	_, err := runCase(c, o, false)
 	return err
 }
 
-func runCase(c Case, o *vt.Obs) (*outcome, error) {
+// runCase executes a case; strict = assert the specification also on the shapes of listed known findings.
+func runCase(c Case, o *vt.Obs, strict bool) (*outcome, error) {
 	c.Chain.HFStagger = false // the native method table (required call flags) is modelled for "all stable hardforks from genesis"
 	np := normalize(c.Prog)
 	b, err := ck.NewBuilder(c.Chain)
@@ -484,6 +488,11 @@ func runCase(c Case, o *vt.Obs) (*outcome, error) {
 			txsWithout = append(txsWithout, items[i].tx)
 		}
 	}
+	for _, tx := range txs {
+		if !bc.GetMemPool().ContainsKey(tx.Hash()) {
+			return nil, setupErr("transaction evicted from the pool while the block was being built")
+		}
+	}
 	before, err := w.observe(bc)
 	if err != nil {
 		return nil, setupErr("observation before the block: %v", err)
@@ -551,14 +560,14 @@ func runCase(c Case, o *vt.Obs) (*outcome, error) {
 	}
 	if m.quirk != "" {
 		o.Label("shape/" + KnownPendingKey)
-		if known(KnownPendingKey) {
+		if !strict && known(KnownPendingKey) {
 			o.Excluded()
 			return out, nil
 		}
 	}
 	if m.leak != "" {
 		o.Label("shape/" + KnownCatchFinKey)
-		if known(KnownCatchFinKey) {
+		if !strict && known(KnownCatchFinKey) {
 			o.Excluded()
 			return out, nil
 		}
@@ -567,6 +576,7 @@ func runCase(c Case, o *vt.Obs) (*outcome, error) {
 		o.Label("HALT")
 	} else {
 		o.Label("FAULT")
+		o.Label("fault/" + firstWords(m.why))
 	}
 	if out.halted != out.modelOK {
 		return out, fmt.Errorf("program transaction: expected %s (%s), chain says %s (%s)", haltStr(out.modelOK), m.why, haltStr(out.halted), out.fault)
@@ -592,6 +602,13 @@ func runCase(c Case, o *vt.Obs) (*outcome, error) {
 		}
 	}
 	return out, nil
+}
+
+func firstWords(s string) string {
+	if i := strings.IndexByte(s, '('); i > 0 {
+		s = s[:i]
+	}
+	return strings.TrimSpace(s)
 }
 
 func haltStr(h bool) string {
@@ -644,7 +661,7 @@ func twinCheck(c Case, w *world, raws [][]byte, rawB []byte, blkA *block.Block, 
 	for j := 0; j < nTiny; j++ {
 		extra = append(extra, tinyHash(w.sender, j))
 	}
-	da, db := ck.FullDump(bc, extra), ck.FullDump(twin.BC, extra)
+	da, db := ck.FullDump(bc, nil), ck.FullDump(twin.BC, nil)
 	// Hash-dependent observables and the three GAS entries that legitimately differ.
 	senderKey, primaryKey, supplyKey := gasKey(w.sender), gasKey(primary), "st/-6/0b"
 	type delta struct {
